@@ -92,6 +92,13 @@ def standard(seed):
     out.append(('inv-L', 'ground', [geom.wire([0, 0, 0], [0, 0, 0.1 * lam], 5, r), geom.wire([0, 0, 0.1 * lam], [0.12 * lam, 0.09 * lam, 0.1 * lam], 7, r)],
                 [dict(pulse=0, v=[1., 0.])]))
     out.append(('dipole-over-ground', 'ground', [geom.wire([0, 0, 0.2 * lam], [0.3 * lam, 0.36 * lam, 0.25 * lam], 20, r)], [dict(pulse=9, v=[1., 0.])]))
+    # quarter-wave slopers leaning into each quadrant (50 degrees elevation), grounded at end 1 and at end 2
+    import math
+    for az in (45., 135., 225., 315.):
+        e, a_ = math.radians(50.), math.radians(az)
+        top = [0.25 * lam * math.cos(e) * math.cos(a_), 0.25 * lam * math.cos(e) * math.sin(a_), 0.25 * lam * math.sin(e)]
+        out.append(('sloper%g' % az, 'ground', [geom.wire([0, 0, 0], top, 10, r)], [dict(pulse=0, v=[1., 0.])]))
+        out.append(('sloper%g-ud' % az, 'ground', [geom.wire(top, [0, 0, 0], 10, r)], [dict(pulse=9, v=[1., 0.])]))
     return f, lam, out
 
 
